@@ -369,6 +369,13 @@ def run(run, model):
     run.do(structure_rules, model)
     from . import inv
     run.do(inv.selection, model, "C04.inv-wrap", "C04.inv-wrap-source")
+    from . import c18, gates, loops
+    run.do(c18.find_rule, model, "C04.single-checker")
+    for _role, _ck in gates.checkers(model).items():
+        for _kind, _depth, _rn in (("PRE", 2, "C04.groups-evaluated"), ("POST", 1, "C04.conjunction-evaluated")):
+            _h = loops.helper_of(model, _ck, _kind)
+            if _h is not None:
+                run.do(loops.verdict_rule, model, _rn, _h[0], _h[1], _h[2], _depth)
     run.minimum("C04.pre-prov", 2)
     run.minimum("C04.post-prov", 2)
     run.minimum("C04.snap-prov", 3)
